@@ -9,6 +9,8 @@ what today's code does satisfy.
 -/
 import Nitime.Model.C03
 import Nitime.Lemmas.C03
+import Nitime.Lemmas.C03Hist
+import Nitime.Lemmas.C03Memo
 import Mathlib.Tactic.Linarith
 import Mathlib.Tactic.Ring
 
@@ -1055,4 +1057,596 @@ theorem epochs_getItem_spec (e : Epochs) (pos : List Nat) :
   | cons p ps ih => simp [ih]
 
 example : (Epochs.getItem ⟨[1, 5, 9], [2, 8, 9], false, 0, .s⟩ [2, 0, 0]).durations = [0, 1, 1] := by decide
+
+/-! ### operation histories: lookups / in-place changes / lookups on ONE container
+
+The state that the fold `runHist` threads through a history is the container's contents (`Cont`),
+nothing else: what was looked up before, and by which python route the buffer was changed, cannot
+be seen by a later lookup. -/
+
+/-- lookups leave the contents alone: after a history the contents are those produced by its in-place
+changes only -/
+theorem contents_ignore_lookups (c : Cont) (h : List HStep) :
+    contentsAfter c h = contentsAfter c (changesOf h) := contentsAfter_changesOf c h
+
+/-- a history made of lookups only ends with the contents it started from -/
+theorem lookups_leave_contents (c : Cont) (h : List HStep) : contentsAfter c (lookupsOf h) = c := by
+  rw [contentsAfter_changesOf]
+  have : changesOf (lookupsOf h) = [] := by
+    simp only [changesOf, lookupsOf, List.filter_filter]
+    rw [List.filter_eq_nil_iff]
+    intro s _
+    cases s <;> simp [HStep.isChange]
+  rw [this]; rfl
+
+/-- **the answer to a lookup depends only on the current contents**: after ANY history of lookups and
+in-place changes, the lookup answers what `lookup` says of the contents produced by the changes alone -/
+theorem lookup_history_independent (c : Cont) (h : List HStep) (op : String) (rest : List String) :
+    (answers c (h ++ [.look op rest])).getLast? = some (lookup (contentsAfter c (changesOf h)) op rest) := by
+  rw [answers_append, answers_look, ← contentsAfter_changesOf]
+  simp
+
+/-- every lookup inside a history (not only the last one) -/
+theorem lookup_history_independent_at (c : Cont) (h₁ h₂ : List HStep) (op : String) (rest : List String) :
+    (answers c (h₁ ++ .look op rest :: h₂))[h₁.length]? = some (lookup (contentsAfter c (changesOf h₁)) op rest) := by
+  rw [answers_append, answers_cons, ← contentsAfter_changesOf]
+  have hl := answers_length c h₁
+  rw [List.getElem?_append_right (by omega)]
+  simp [hl, stepHist]
+
+/-- two histories (on the same or on different objects) that end with the same contents answer every lookup alike -/
+theorem lookup_same_contents (c₁ c₂ : Cont) (h₁ h₂ : List HStep) (heq : contentsAfter c₁ h₁ = contentsAfter c₂ h₂)
+    (op : String) (rest : List String) :
+    (answers c₁ (h₁ ++ [.look op rest])).getLast? = (answers c₂ (h₂ ++ [.look op rest])).getLast? := by
+  rw [lookup_history_independent, lookup_history_independent, ← contentsAfter_changesOf, ← contentsAfter_changesOf, heq]
+
+/-- in particular: as a fresh container holding the current samples would (the harness's `fresh-container-differs`) -/
+theorem lookup_as_fresh_container (c : Cont) (h : List HStep) (op : String) (rest : List String) :
+    (answers c (h ++ [.look op rest])).getLast? = (answers (contentsAfter c h) [.look op rest]).getLast? := by
+  have := lookup_same_contents c (contentsAfter c h) h [] rfl op rest
+  simpa using this
+
+/-- one answer per step -/
+theorem history_answers_length (c : Cont) (h : List HStep) : (answers c h).length = h.length := answers_length c h
+
+/-- a refused in-place change leaves the contents as they were -/
+theorem refused_change_keeps_contents (c : Cont) (ch : Change) (e : Err) (h : ch.apply c = .error e) :
+    contentsAfter c [.change ch] = c := by
+  simp [contentsAfter, runHist, stepHist, h]
+
+/-- an accepted one replaces them by what `Change.apply` says -/
+theorem accepted_change_contents (c c' : Cont) (ch : Change) (h : ch.apply c = .ok c') :
+    contentsAfter c [.change ch] = c' := by
+  simp [contentsAfter, runHist, stepHist, h]
+
+example : contentsAfter (.tarray ⟨[1, 2, 3, 4, 5, 6], .ps, false⟩)
+    [.look "index_at" ["before", "T:ps:1:2", "_"], .change (.tarr (.setAt 3 0)), .look "index_at" ["before", "T:ps:1:0", "_"],
+     .change (.tarr (.add [1])), .change (.tarr (.add [1, 2])), .change (.tarr .reverse)]
+    = .tarray ⟨[7, 6, 1, 4, 3, 2], .ps, false⟩ ∧
+    indexBefore [1, 2, 3, 0, 5, 6] 0 = some 3 ∧ indexAfter [1, 2, 3, 0, 5, 6] 0 = some 3 := by decide
+
+/-! #### what the in-place changes of a time array do, element by element -/
+
+/-- no change alters the number of samples: positions keep their meaning (and the parallel data arrays their partner) -/
+theorem tchange_length (ts : List Int) (ch : TChange) (r : List Int) (h : ch.apply ts = .ok r) : r.length = ts.length := by
+  cases ch with
+  | setAt i v =>
+    simp only [TChange.apply] at h
+    split at h <;> cases h
+    simp
+  | add xs => exact inplaceZip_length _ _ _ _ h
+  | sub xs => exact inplaceZip_length _ _ _ _ h
+  | mul k => cases h; simp
+  | sort => cases h; simp
+  | sortDesc => cases h; simp
+  | reverse => cases h; simp
+  | assign xs => exact inplaceZip_length _ _ _ _ h
+
+/-- `ta[i] = v` (by any route): position `i` holds `v`, every other position what it held -/
+theorem tchange_setAt_spec (ts : List Int) (i : Nat) (v : Int) (hi : i < ts.length) :
+    ∃ r, TChange.apply ts (.setAt i v) = .ok r ∧ ∀ j, r.getD j 0 = if j = i then v else ts.getD j 0 := by
+  refine ⟨ts.set i v, by simp [TChange.apply, hi], fun j => ?_⟩
+  by_cases hj : j = i
+  · subst hj; simp [List.getD_eq_getElem?_getD, hi]
+  · have : i ≠ j := fun h => hj h.symm
+    simp [List.getD_eq_getElem?_getD, hj, List.getElem?_set_ne this]
+
+/-- `ta += x`, `ta -= x`, `np.copyto(ta, x)` under numpy's in-place broadcasting -/
+theorem tchange_arith_spec (ts xs r : List Int) (j : Nat) (hj : j < ts.length) :
+    (TChange.apply ts (.add xs) = .ok r → r.getD j 0 = ts.getD j 0 + (if xs.length = ts.length then xs.getD j 0 else xs.headD 0)) ∧
+    (TChange.apply ts (.sub xs) = .ok r → r.getD j 0 = ts.getD j 0 - (if xs.length = ts.length then xs.getD j 0 else xs.headD 0)) ∧
+    (TChange.apply ts (.assign xs) = .ok r → r.getD j 0 = (if xs.length = ts.length then xs.getD j 0 else xs.headD 0)) :=
+  ⟨fun h => inplaceZip_getD _ _ _ _ h j hj, fun h => inplaceZip_getD _ _ _ _ h j hj, fun h => inplaceZip_getD _ _ _ _ h j hj⟩
+
+/-- operands of another length (and not a single element) are refused -/
+theorem tchange_arith_refused (ts xs : List Int) (h1 : xs.length ≠ ts.length) (h2 : xs.length ≠ 1) :
+    TChange.apply ts (.add xs) = .error .valueError := by
+  simp only [TChange.apply, inplaceZip, if_neg h1]
+  match xs, h2 with
+  | [], _ => rfl
+  | [_], h => simp at h
+  | _ :: _ :: _, _ => rfl
+
+theorem tchange_mul_spec (ts : List Int) (k : Int) (j : Nat) (hj : j < ts.length) :
+    ∃ r, TChange.apply ts (.mul k) = .ok r ∧ r.getD j 0 = ts.getD j 0 * k :=
+  ⟨_, rfl, getD_map _ ts j hj⟩
+
+/-- `ta.sort()`: the same samples, ascending; `ta[::-1].sort()`: the same samples, descending -/
+theorem tchange_sort_spec (ts : List Int) :
+    (∃ r, TChange.apply ts .sort = .ok r ∧ r.Pairwise (· ≤ ·) ∧ r.Perm ts) ∧
+    (∃ r, TChange.apply ts .sortDesc = .ok r ∧ r.Pairwise (· ≥ ·) ∧ r.Perm ts) := by
+  have hs : (ts.mergeSort (fun a b => decide (a ≤ b))).Pairwise (· ≤ ·) := by
+    have := List.pairwise_mergeSort (le := fun (a b : Int) => decide (a ≤ b))
+      (by intro a b c h1 h2; simp only [decide_eq_true_eq] at *; omega)
+      (by intro a b; simp only [Bool.or_eq_true, decide_eq_true_eq]; omega) ts
+    exact this.imp (by intro a b h; simpa using h)
+  refine ⟨⟨_, rfl, hs, List.mergeSort_perm _ _⟩, ⟨_, rfl, ?_, (List.reverse_perm _).trans (List.mergeSort_perm _ _)⟩⟩
+  rw [List.pairwise_reverse]
+  exact hs.imp (fun h => h)
+
+/-- negating a sorted array in place leaves it in DESCENDING order: a memo "sorted" would be stale -/
+theorem tchange_negate_reverses_order (ts : List Int) (hs : ts.Pairwise (· ≤ ·)) :
+    ∃ r, TChange.apply ts (.mul (-1)) = .ok r ∧ r.Pairwise (· ≥ ·) := by
+  refine ⟨_, rfl, ?_⟩
+  rw [List.pairwise_map]
+  exact hs.imp (by intro a b h; show a * -1 ≥ b * -1; omega)
+
+/-- a history never changes the kind of a time array, its unit or its length -/
+theorem history_tarray_shape (t : C01.TVal) (h : List HStep) :
+    ∃ t' : C01.TVal, contentsAfter (.tarray t) h = .tarray t' ∧ t'.unit = t.unit ∧ t'.scalar = t.scalar ∧
+      t'.ps.length = t.ps.length := by
+  induction h generalizing t with
+  | nil => exact ⟨t, rfl, rfl, rfl, rfl⟩
+  | cons s h ih =>
+    rw [contentsAfter_cons]
+    cases s with
+    | look op rest => exact ih t
+    | change ch =>
+      cases ch with
+      | uax c => exact ih t
+      | tarr c =>
+        simp only [stepHist, Change.apply]
+        cases hc : c.apply t.ps with
+        | error e => simpa [Except.map] using ih t
+        | ok ps =>
+          obtain ⟨t', h1, h2, h3, h4⟩ := ih { t with ps := ps }
+          refine ⟨t', by simpa [Except.map] using h1, h2, h3, ?_⟩
+          rw [h4]; exact tchange_length _ _ _ hc
+
+/-- events: a history of in-place changes of the time stamps leaves every data array, the unit and the
+number of events as they were — "the data stored at those same positions" keeps its meaning -/
+theorem history_events_data (ev : Events) (h : List HStep) :
+    ∃ ev' : Events, contentsAfter (.events ev) h = .events ev' ∧ ev'.data = ev.data ∧ ev'.unit = ev.unit ∧
+      ev'.time.length = ev.time.length := by
+  induction h generalizing ev with
+  | nil => exact ⟨ev, rfl, rfl, rfl, rfl⟩
+  | cons s h ih =>
+    rw [contentsAfter_cons]
+    cases s with
+    | look op rest => exact ih ev
+    | change ch =>
+      cases ch with
+      | uax c => exact ih ev
+      | tarr c =>
+        simp only [stepHist, Change.apply]
+        cases hc : c.apply ev.time with
+        | error e => simpa [Except.map] using ih ev
+        | ok ps =>
+          obtain ⟨ev', h1, h2, h3, h4⟩ := ih { ev with time := ps }
+          refine ⟨ev', by simpa [Except.map] using h1, h2, h3, ?_⟩
+          rw [h4]; exact tchange_length _ _ _ hc
+
+/-- after ANY history on a time array, `mode='before'` / `mode='after'` with a single instant answer from the
+current samples `ts'`, and the position named satisfies the relation on THOSE samples (`before_spec`, `after_spec`) -/
+theorem history_before_after_spec (t : C01.TVal) (h : List HStep) (q tol : String) (tq : Int) (sc : Bool) (tolv : Int)
+    (hq : parseQuery? t.unit q = some ([tq], sc)) (htol : parseTol? t.unit tol = some tolv) :
+    ∃ ts' : List Int, ts'.length = t.ps.length ∧
+      (answers (.tarray t) (h ++ [.look "index_at" ["before", q, tol]])).getLast? =
+        some (match indexBefore ts' tq with | some i => s!"ok i:{i}" | none => "ok a:-") ∧
+      (answers (.tarray t) (h ++ [.look "index_at" ["after", q, tol]])).getLast? =
+        some (match indexAfter ts' tq with | some i => s!"ok i:{i}" | none => "ok a:-") ∧
+      (indexBefore ts' tq = none ↔ ∀ i, i < ts'.length → tq < ts'.getD i 0) ∧
+      (∀ j, indexBefore ts' tq = some j → j < ts'.length ∧ ts'.getD j 0 ≤ tq ∧
+        ∀ i, i < ts'.length → ts'.getD i 0 ≤ tq → ts'.getD i 0 ≤ ts'.getD j 0) ∧
+      (indexAfter ts' tq = none ↔ ∀ i, i < ts'.length → ts'.getD i 0 < tq) ∧
+      (∀ j, indexAfter ts' tq = some j → j < ts'.length ∧ tq ≤ ts'.getD j 0 ∧
+        ∀ i, i < ts'.length → tq ≤ ts'.getD i 0 → ts'.getD j 0 ≤ ts'.getD i 0) := by
+  obtain ⟨t', hc, hu, _, hl⟩ := history_tarray_shape t h
+  have hb := before_spec t'.ps tq
+  have ha := after_spec t'.ps tq
+  refine ⟨t'.ps, hl, ?_, ?_, hb.1, fun j hj => ⟨(hb.2 j hj).1, (hb.2 j hj).2.1, (hb.2 j hj).2.2.1⟩,
+    ha.1, fun j hj => ⟨(ha.2 j hj).1, (ha.2 j hj).2.1, (ha.2 j hj).2.2.1⟩⟩
+  · rw [lookup_history_independent, ← contentsAfter_changesOf, hc]
+    simp only [lookup, lookupTArray, hu, hq, htol, tarrayIndexAt]
+    cases indexBefore t'.ps tq <;> rfl
+  · rw [lookup_history_independent, ← contentsAfter_changesOf, hc]
+    simp only [lookup, lookupTArray, hu, hq, htol, tarrayIndexAt]
+    cases indexAfter t'.ps tq <;> rfl
+
+/-! #### in-place changes of a uniform axis: the attributes keep describing the samples -/
+
+theorem times_reset (a : UAxis) (t0 dt : Int) :
+    (a.reset t0 dt).times = (List.range a.n).map fun (i : Nat) => t0 + (i : Int) * dt := rfl
+
+theorem uchange_n_dur_sub (a b : UAxis) (xs : List Int) (sc : Bool) (h : a.shifted (-1) xs sc = .ok b) :
+    b.n = a.n ∧ b.unit = a.unit ∧ b.dur = (b.n : Int) * b.dt := by
+  have key : ∀ t0 dt, (a.reset t0 dt).n = a.n ∧ (a.reset t0 dt).unit = a.unit ∧
+      (a.reset t0 dt).dur = ((a.reset t0 dt).n : Int) * (a.reset t0 dt).dt := fun _ _ => ⟨rfl, rfl, rfl⟩
+  simp only [shifted] at h
+  split at h
+  · cases h; exact key _ _
+  · split at h
+    · cases h
+    · cases h; exact key _ _
+    · split at h
+      · cases h
+      · split at h
+        · cases h
+        · split at h
+          · cases h
+          · cases h; exact key _ _
+
+/-- every accepted `+= -= *= /=` leaves `n` alone and a duration of `n` intervals, so that today's range check
+(`indexAtCurrent`) is the intended one (`indexAtCurrent_partial`) -/
+theorem uchange_n_dur (a b : UAxis) (ch : UChange) (h : ch.apply a = .ok b) :
+    b.n = a.n ∧ b.unit = a.unit ∧ b.dur = (b.n : Int) * b.dt := by
+  have key : ∀ t0 dt, (a.reset t0 dt).n = a.n ∧ (a.reset t0 dt).unit = a.unit ∧
+      (a.reset t0 dt).dur = ((a.reset t0 dt).n : Int) * (a.reset t0 dt).dt := fun _ _ => ⟨rfl, rfl, rfl⟩
+  cases ch with
+  | add xs sc =>
+    simp only [UChange.apply, shifted] at h
+    split at h
+    · cases h; exact key _ _
+    · split at h
+      · cases h
+      · cases h; exact key _ _
+      · split at h
+        · cases h
+        · split at h
+          · cases h
+          · split at h
+            · cases h
+            · cases h; exact key _ _
+  | sub xs sc =>
+    simp only [UChange.apply, shifted] at h
+    split at h
+    · cases h; exact key _ _
+    · split at h
+      · cases h
+      · cases h; exact key _ _
+      · split at h
+        · cases h
+        · split at h
+          · cases h
+          · split at h
+            · cases h
+            · cases h; exact key _ _
+  | mul k =>
+    simp only [UChange.apply, scaled] at h
+    split at h
+    · cases h
+    · cases h; exact key _ _
+  | div k =>
+    simp only [UChange.apply, divided] at h
+    split at h
+    · cases h
+    · cases h; exact key _ _
+  | rsub xs sc =>
+    simp only [UChange.apply] at h
+    cases hs : a.shifted (-1) xs sc with
+    | error e => rw [hs] at h; cases h
+    | ok c =>
+      rw [hs] at h
+      simp only [Except.bind, scaled] at h
+      split at h
+      · cases h
+      · cases h
+        have hc : c.n = a.n ∧ c.unit = a.unit := by
+          have := uchange_n_dur_sub a c xs sc hs
+          exact ⟨this.1, this.2.1⟩
+        exact ⟨hc.1, hc.2, rfl⟩
+
+/-- a shift (0-d operand, or one element): every sample moves by it, the interval stays -/
+theorem uchange_shift_times (a : UAxis) (x : Int) (i : Nat) :
+    ∃ b, UChange.apply a (.add [x] true) = .ok b ∧ b.sample i = a.sample i + x ∧ b.dt = a.dt := by
+  refine ⟨_, rfl, ?_, rfl⟩
+  simp only [sample, reset, List.headD_cons]; ring
+
+/-- an accepted ramp `x, x+d, x+2d, …`: sample `i` moves by `x + i·d` — the attribute arithmetic of `__iadd__`
+agrees with what numpy did to the buffer -/
+theorem uchange_ramp_times (a b : UAxis) (x y : Int) (rest : List Int)
+    (h : UChange.apply a (.add (x :: y :: rest) false) = .ok b) (i : Nat) :
+    b.sample i = a.sample i + (x + (i : Int) * (y - x)) ∧ (x :: y :: rest).length = a.n ∧ b.dt ≠ 0 ∨
+    (y - x = 0 ∧ b.sample i = a.sample i + x) := by
+  simp only [UChange.apply, shifted, Bool.false_eq_true, if_false] at h
+  split at h
+  · cases h
+  · split at h
+    · cases h
+    · split at h
+      · cases h
+      · rename_i hc hl
+        cases h
+        by_cases hd : y - x = 0
+        · right
+          refine ⟨hd, ?_⟩
+          simp only [sample, reset, hd]; ring
+        · left
+          refine ⟨?_, by simpa using hl, ?_⟩
+          · simp only [sample, reset]; ring
+          · simp only [reset]
+            intro h0
+            exact hc ⟨hd, by linarith⟩
+
+/-- `*= k` and an accepted `/= k`: every sample is multiplied / divided exactly -/
+theorem uchange_scale_times (a b : UAxis) (k : Int) (i : Nat) :
+    (UChange.apply a (.mul k) = .ok b → k ≠ 0 ∧ b.sample i = a.sample i * k) ∧
+    (UChange.apply a (.div k) = .ok b → k ≠ 0 ∧ b.sample i * k = a.sample i) := by
+  constructor
+  · intro h
+    simp only [UChange.apply, scaled] at h
+    split at h
+    · cases h
+    · rename_i hk
+      cases h
+      refine ⟨hk, ?_⟩
+      simp only [sample, reset]; ring
+  · intro h
+    simp only [UChange.apply, divided] at h
+    split at h
+    · cases h
+    · rename_i hk
+      cases h
+      have hk0 : k ≠ 0 := fun h0 => hk (Or.inl h0)
+      have h1 : a.t0 % k = 0 := by by_contra hc; exact hk (Or.inr (Or.inl hc))
+      have h2 : a.dt % k = 0 := by by_contra hc; exact hk (Or.inr (Or.inr hc))
+      refine ⟨hk0, ?_⟩
+      have e1 : Int.fdiv a.t0 k * k = a.t0 := by
+        rw [Int.fdiv_eq_ediv_of_dvd (Int.dvd_of_emod_eq_zero h1)]; exact Int.ediv_mul_cancel (Int.dvd_of_emod_eq_zero h1)
+      have e2 : Int.fdiv a.dt k * k = a.dt := by
+        rw [Int.fdiv_eq_ediv_of_dvd (Int.dvd_of_emod_eq_zero h2)]; exact Int.ediv_mul_cancel (Int.dvd_of_emod_eq_zero h2)
+      simp only [sample, reset]
+      calc (Int.fdiv a.t0 k + (i : Int) * Int.fdiv a.dt k) * k
+          = Int.fdiv a.t0 k * k + (i : Int) * (Int.fdiv a.dt k * k) := by ring
+        _ = a.t0 + (i : Int) * a.dt := by rw [e1, e2]
+
+/-- the refusals: an operand that would collapse the axis, a non-uniform one, one of another length, `*= 0`,
+an inexact division — all `ValueError`, contents unchanged (`refused_change_keeps_contents`) -/
+theorem uchange_refusals (a : UAxis) :
+    UChange.apply a (.mul 0) = .error .valueError ∧ UChange.apply a (.div 0) = .error .valueError ∧
+    (∀ x rest, a.dt ≠ 0 → UChange.apply a (.add (x :: (x - a.dt) :: rest) false) = .error .valueError) ∧
+    (∀ k, a.dt % k ≠ 0 → UChange.apply a (.div k) = .error .valueError) := by
+  refine ⟨rfl, by simp [UChange.apply, divided], ?_, ?_⟩
+  · intro x rest hdt
+    simp only [UChange.apply, shifted, Bool.false_eq_true, if_false]
+    split
+    · rfl
+    · simp [hdt]
+  · intro k hk
+    simp [UChange.apply, divided, hk]
+
+/-- `x - axis` with a 0-d `x`: sample `i` of the result is `x - t_i`; the interval changes its sign -/
+theorem uchange_rsub_times (a : UAxis) (x : Int) (i : Nat) :
+    ∃ b, UChange.apply a (.rsub [x] true) = .ok b ∧ b.sample i = x - a.sample i ∧ b.dt = -a.dt := by
+  refine ⟨(a.reset (a.t0 + -1 * x) a.dt).reset ((a.t0 + -1 * x) * -1) (a.dt * -1), ?_, ?_, ?_⟩
+  · simp [UChange.apply, shifted, scaled, Except.bind, reset]
+  · simp only [sample, reset]; ring
+  · simp only [reset]; ring
+
+/-- arithmetic that makes a NEW object (`axis + x`, `x - axis`, …) never yields a uniform axis whose attributes are
+those of its operand: a uniform result is exactly what the in-place operation gives (so `uchange_n_dur`,
+`uchange_shift_times`, `uchange_ramp_times`, `uchange_rsub_times` describe it), and the operand is a value (unchanged) -/
+theorem derive_uniform_spec (a b : UAxis) (ch : UChange) (h : a.derive ch = .ok (.uaxis b)) :
+    ch.apply a = .ok b ∧ b.n = a.n ∧ b.unit = a.unit ∧ b.dur = (b.n : Int) * b.dt := by
+  unfold UAxis.derive at h
+  cases hc : ch.apply a with
+  | ok c =>
+    rw [hc] at h
+    simp only [Except.ok.injEq, Cont.uaxis.injEq] at h
+    subst h
+    exact ⟨rfl, uchange_n_dur a c ch hc⟩
+  | error e =>
+    rw [hc] at h
+    exfalso
+    cases ch <;> simp only at h
+    all_goals first
+      | (split at h <;> cases h)
+      | cases h
+
+/-- otherwise (operand refused in place; here: an equally long, non-uniform or collapsing operand) the result is an
+ordinary time array in the axis' unit holding the element-wise sums -/
+theorem derive_plain_add (a : UAxis) (xs : List Int) (t : C01.TVal) (hl : xs.length = a.n)
+    (h : a.derive (.add xs false) = .ok (.tarray t)) :
+    t.ps = List.zipWith (· + ·) a.times xs ∧ t.unit = a.unit ∧ t.scalar = false ∧ (∃ e, a.shifted 1 xs false = .error e) := by
+  unfold UAxis.derive at h
+  cases hc : UChange.apply a (.add xs false) with
+  | ok c => rw [hc] at h; simp at h
+  | error e =>
+    rw [hc] at h
+    have hlen : a.times.length = xs.length := by simp [times, hl]
+    simp only [C01.broadcast, hlen, if_true] at h
+    simp only [Except.ok.injEq, Cont.tarray.injEq] at h
+    subst h
+    exact ⟨rfl, rfl, rfl, e, hc⟩
+
+example : (⟨0, 2, 4, 8, .ms⟩ : UAxis).derive (.add [5] true) = .ok (.uaxis ⟨5, 2, 4, 8, .ms⟩) ∧
+    (⟨0, 2, 4, 8, .ms⟩ : UAxis).derive (.rsub [5] true) = .ok (.uaxis ⟨5, -2, 4, -8, .ms⟩) ∧
+    (⟨0, 2, 4, 8, .ms⟩ : UAxis).derive (.add [0, 1, 5, 3] false) = .ok (.tarray ⟨[0, 3, 9, 9], .ms, false⟩) ∧
+    (⟨0, 2, 4, 8, .ms⟩ : UAxis).derive (.sub [0, 2, 4, 6] false) = .ok (.tarray ⟨[0, 0, 0, 0], .ms, false⟩) ∧
+    (⟨0, 2, 4, 8, .ms⟩ : UAxis).derive (.add [1, 2, 3] false) = .error .valueError ∧
+    (⟨5, 2, 4, 8, .ms⟩ : UAxis).indexAt [7] = .ok [1] := by decide
+
+/-- after ANY history on a uniform axis that ends on a forward axis `b`, `slice_during` answers with the slice
+computed from `b`, which holds exactly the samples `start ≤ t_i < stop` of the axis AS IT IS NOW -/
+theorem history_uniform_slice_spec (a : UAxis) (h : List HStep) (b : UAxis) (hb : contentsAfter (.uaxis a) h = .uaxis b)
+    (ep : List String) (e : Epochs) (he : parseEpochs? ep = some (.ok e)) (hsc : e.scalar = true) (hdt : 0 < b.dt) :
+    (answers (.uaxis a) (h ++ [.look "slice_during" ep])).getLast? =
+      some (showPos (b.sliceDuring (e.starts.headD 0) (e.stops.headD 0)).1 (b.sliceDuring (e.starts.headD 0) (e.stops.headD 0)).2) ∧
+    ∀ i, i ∈ slicePos (b.sliceDuring (e.starts.headD 0) (e.stops.headD 0)).1 (b.sliceDuring (e.starts.headD 0) (e.stops.headD 0)).2 ↔
+      i < b.n ∧ e.starts.headD 0 ≤ b.sample i ∧ b.sample i < e.stops.headD 0 := by
+  refine ⟨?_, fun i => sliceDuring_spec_uniform b hdt _ _ i⟩
+  rw [lookup_history_independent, ← contentsAfter_changesOf, hb]
+  simp only [lookup, lookupUAxis, he, withScalarEpoch, hsc, if_true]
+
+/-- a history of in-place changes of `series.time` leaves the data and the number of samples as they were; the
+axis keeps a duration of `n` intervals -/
+theorem history_series_data (s : Series) (h : List HStep) (hd : s.axis.dur = (s.axis.n : Int) * s.axis.dt) :
+    ∃ s' : Series, contentsAfter (.series s) h = .series s' ∧ s'.data = s.data ∧ s'.axis.n = s.axis.n ∧
+      s'.axis.unit = s.axis.unit ∧ s'.axis.dur = (s'.axis.n : Int) * s'.axis.dt := by
+  induction h generalizing s with
+  | nil => exact ⟨s, rfl, rfl, rfl, rfl, hd⟩
+  | cons st h ih =>
+    rw [contentsAfter_cons]
+    cases st with
+    | look op rest => exact ih s hd
+    | change ch =>
+      cases ch with
+      | tarr c => exact ih s hd
+      | uax c =>
+        simp only [stepHist, Change.apply]
+        cases hc : c.apply s.axis with
+        | error e => simpa [Except.map] using ih s hd
+        | ok b =>
+          obtain ⟨h1, h2, h3⟩ := uchange_n_dur s.axis b c hc
+          obtain ⟨s', g1, g2, g3, g4, g5⟩ := ih { s with axis := b } h3
+          exact ⟨s', by simpa [Except.map] using g1, g2, by rw [g3]; exact h1, by rw [g4]; exact h2, g5⟩
+
+example : contentsAfter (.uaxis ⟨1, 2, 4, 8, .ps⟩)
+    [.look "index_at" ["T:ps:1:4"], .change (.uax (.add [3] true)), .look "index_at" ["T:ps:1:4"],
+     .change (.uax (.add [0, -4, -8, -12] false)), .look "index_at" ["T:ps:1:1"], .change (.uax (.div 3))]
+    = .uaxis ⟨4, -2, 4, -8, .ps⟩ ∧ (⟨4, -2, 4, -8, .ps⟩ : UAxis).indexAt [1] = .ok [1] := by decide
+
+/-! ### memoising implementations of before/after as a class (see `Lemmas/C03Memo.lean`): not code of the
+repository — the condition under which a memo + binary search refines the specification along every history -/
+section memo
+open Nitime.C03.Memo
+
+/-- on a sorted array the binary search names the same position as the exhaustive scan -/
+theorem bisect_eq_scan (ts : List Int) (hs : ts.Pairwise (· ≤ ·)) (t : Int) :
+    bisectBefore ts t = indexBefore ts t ∧ bisectAfter ts t = indexAfter ts t := by
+  constructor
+  · obtain ⟨hnone, hsome⟩ := before_spec ts t
+    unfold bisectBefore
+    by_cases hr : countLE ts t = 0
+    · simp only [hr, if_true]
+      symm; rw [hnone]
+      intro i hi
+      have := (countLE_spec ts hs t i hi).not
+      rw [hr] at this
+      have h2 := this.mp (by omega)
+      omega
+    · simp only [hr, if_false]
+      have hrl := countLE_le ts t
+      have hr1 : countLE ts t - 1 < ts.length := by omega
+      have hv : ts.getD (countLE ts t - 1) 0 ≤ t := (countLE_spec ts hs t _ hr1).mp (by omega)
+      cases hib : indexBefore ts t with
+      | none =>
+        have := hnone.mp hib _ hr1
+        omega
+      | some j =>
+        obtain ⟨hj, hjt, hmax, hfirst⟩ := hsome j hib
+        have hjr : j < countLE ts t := (countLE_spec ts hs t j hj).mpr hjt
+        have h1 : ts.getD j 0 ≤ ts.getD (countLE ts t - 1) 0 := sorted_getD hs (by omega) hr1
+        have h2 : ts.getD (countLE ts t - 1) 0 ≤ ts.getD j 0 := hmax _ hr1 hv
+        have hveq : ts.getD (countLE ts t - 1) 0 = ts.getD j 0 := le_antisymm h2 h1
+        rw [hveq]
+        have hkj : countLT ts (ts.getD j 0) ≤ j := by
+          by_contra hc
+          have := (countLT_spec ts hs (ts.getD j 0) j hj).mp (by omega)
+          omega
+        have hk : countLT ts (ts.getD j 0) < ts.length := by omega
+        have hkv : ¬ ts.getD (countLT ts (ts.getD j 0)) 0 < ts.getD j 0 :=
+          fun hc => absurd ((countLT_spec ts hs _ _ hk).mpr hc) (by omega)
+        have hkle : ts.getD (countLT ts (ts.getD j 0)) 0 ≤ ts.getD j 0 := sorted_getD hs hkj hj
+        congr 1
+        by_contra hne
+        have hlt : countLT ts (ts.getD j 0) < j := by omega
+        have := hfirst _ hlt (by omega)
+        omega
+  · obtain ⟨hnone, hsome⟩ := after_spec ts t
+    unfold bisectAfter
+    by_cases hl : countLT ts t = ts.length
+    · simp only [hl, if_true]
+      symm; rw [hnone]
+      intro i hi
+      exact (countLT_spec ts hs t i hi).mp (by omega)
+    · simp only [hl, if_false]
+      have hll : countLT ts t < ts.length := by have := countLT_le ts t; omega
+      have hlt : ¬ ts.getD (countLT ts t) 0 < t := fun hc => absurd ((countLT_spec ts hs t _ hll).mpr hc) (by omega)
+      cases hia : indexAfter ts t with
+      | none =>
+        have := hnone.mp hia _ hll
+        omega
+      | some j =>
+        obtain ⟨hj, hjt, hmin, hfirst⟩ := hsome j hia
+        have hlj : countLT ts t ≤ j := by
+          by_contra hc
+          have := (countLT_spec ts hs t j hj).mp (by omega)
+          omega
+        congr 1
+        by_contra hne
+        have hlt2 : countLT ts t < j := by omega
+        have h1 := hfirst _ hlt2 (by omega)
+        have h2 : ts.getD (countLT ts t) 0 ≤ ts.getD j 0 := sorted_getD hs hlj hj
+        omega
+
+theorem flagLook_ok (ts : List Int) (m : Option Bool) (b : Bool) (t : Int) (hv : flagValid ts m) :
+    (flagLook ts m b t).1 = specLook ts b t ∧ flagValid ts (flagLook ts m b t).2 := by
+  have hsrt : m.getD (isSortedB ts) = isSortedB ts := by
+    rcases hv with h | h <;> simp [h]
+  simp only [flagLook, hsrt]
+  refine ⟨?_, Or.inr rfl⟩
+  by_cases hs : isSortedB ts = true
+  · have hp := (isSortedB_iff ts).mp hs
+    obtain ⟨h1, h2⟩ := bisect_eq_scan ts hp t
+    simp only [hs, if_true, specLook]
+    cases b <;> simp [h1, h2]
+  · simp [hs]
+
+/-- a flag that every change drops: all answers along all histories are those of the specification -/
+theorem sortedFlag_refines (ts : List Int) (h : List MStep) :
+    (sortedFlag dropAlways).run ts none h = specRun ts h :=
+  memo_refines (sortedFlag dropAlways) flagValid (fun ts m b t hv => flagLook_ok ts m b t hv)
+    (fun _ _ _ _ _ _ => Or.inl rfl) ts none (Or.inl rfl) h
+
+/-- a flag that only `ta[i] = v` drops: after a lookup, `ta *= -1` (or `+=`, a write through a view, …)
+leaves a stale "sorted" and the next lookup names a position that does not satisfy the relation -/
+theorem sortedFlag_stale_counterexample :
+    ∃ (ts : List Int) (h : List MStep), (sortedFlag dropOnSetitem).run ts none h ≠ specRun ts h ∧
+      (sortedFlag dropOnSetitem).run ts none h = [some 1, some 1] ∧ specRun ts h = [some 1, some 3] :=
+  ⟨[1, 2, 3, 4, 5, 6], [.look true 2, .change (.add [0, 0, 0, -4, 0, 0]), .look true 0], by decide, by decide, by decide⟩
+
+/-- `dropOnSetitem` still refines on histories whose only changes are `ta[i] = v` -/
+theorem sortedFlag_setitem_only_refines (ts : List Int) (h : List MStep)
+    (hh : ∀ s ∈ h, ∀ ch, s = .change ch → ∃ i v, ch = .setAt i v) :
+    (sortedFlag dropOnSetitem).run ts none h = specRun ts h := by
+  suffices H : ∀ (ts : List Int) (m : Option Bool), flagValid ts m →
+      (sortedFlag dropOnSetitem).run ts m h = specRun ts h from H ts none (Or.inl rfl)
+  induction h with
+  | nil => intro ts m _; rfl
+  | cons s h ih =>
+    intro ts m hv
+    have ih' := ih (fun s hs => hh s (List.mem_cons_of_mem _ hs))
+    cases s with
+    | look b t =>
+      simp only [MemoImpl.run, specRun, sortedFlag]
+      rw [(flagLook_ok ts m b t hv).1]
+      exact congrArg _ (ih' ts _ (flagLook_ok ts m b t hv).2)
+    | change ch =>
+      obtain ⟨i, v, rfl⟩ := hh _ (List.mem_cons_self) ch rfl
+      simp only [MemoImpl.run, specRun]
+      cases hc : TChange.apply ts (.setAt i v) with
+      | ok r => exact ih' r _ (Or.inl rfl)
+      | error e => exact ih' ts m hv
+
+
+/-- the generic refinement condition (re-stated here for the audit) -/
+theorem memo_refines_spec {μ} (I : MemoImpl μ) (valid : List Int → μ → Prop)
+    (hlook : ∀ ts m b t, valid ts m → (I.look ts m b t).1 = specLook ts b t ∧ valid ts (I.look ts m b t).2)
+    (hchg : ∀ ts m ch r, valid ts m → ch.apply ts = .ok r → valid r (I.onChange ch m))
+    (ts : List Int) (m : μ) (hv : valid ts m) (h : List MStep) : I.run ts m h = specRun ts h :=
+  memo_refines I valid hlook hchg ts m hv h
+
+end memo
+
 end Nitime.C03.Props
